@@ -13,6 +13,23 @@ Qed.
 Lemma code_clean_nil : code_clean [] = true.
 Proof. reflexivity. Qed.
 
+(** the RestoreFunc: nothing happens before its DELETE, everything is gone after it *)
+Lemma run_restore_spec rs d k d' rs' :
+  run_restore rs d = (k, d', rs') ->
+  k <= 4 /\ ((k < 2 /\ d' = d) \/ (2 <= k /\ d' = [])).
+Proof.
+  unfold run_restore.
+  destruct (pop rs) as [f1 rs1]. destruct f1; [intros E; inversion E; subst; split; [lia|left; split; [lia|reflexivity]]|].
+  destruct (pop rs1) as [f2 rs2]. destruct f2; [intros E; inversion E; subst; split; [lia|left; split; [lia|reflexivity]]|].
+  destruct (pop rs2) as [f3 rs3]. destruct f3; [intros E; inversion E; subst; split; [lia|right; split; [lia|apply restore_nil]]|].
+  destruct (pop rs3) as [f4 rs4]. destruct f4; intros E; inversion E; subst; (split; [lia|right; split; [lia|apply restore_nil]]).
+Qed.
+
+Lemma run_restore_nofault d : run_restore [] d = (4, [], []).
+Proof. unfold run_restore. simpl. rewrite restore_nil. reflexivity. Qed.
+
+Opaque run_restore.
+
 (** ** the cleanliness verdict *)
 Lemma filter_nil_iff {A} (f : A -> bool) l :
   filter f l = [] <-> forall x, In x l -> f x = false.
@@ -27,213 +44,424 @@ Proof.
 Qed.
 
 Lemma code_clean_split d :
-  code_clean d = true <-> inspect_tables d = [] /\ views_triggers d = [].
+  code_clean d = true <-> inspect_tables d = [] /\ other_objects d = [].
 Proof.
   unfold code_clean.
-  destruct (inspect_tables d); destruct (views_triggers d); split; intros H;
+  destruct (inspect_tables d); destruct (other_objects d); split; intros H;
     try discriminate; try (destruct H; discriminate); auto.
 Qed.
 
-Definition hidden_or_index (o : obj) : Prop :=
-  (o_kind o = KTable /\ hidden_name (o_name o) = true) \/ o_kind o = KIndex.
-
-Lemma code_clean_char d :
-  code_clean d = true <-> forall o, In o d -> hidden_or_index o.
+(** Snapshot accepts only engine bookkeeping (no premise on the database). *)
+Lemma code_clean_sound d : code_clean d = true -> prop_clean d = true.
 Proof.
-  rewrite code_clean_split. unfold inspect_tables, views_triggers.
-  rewrite !filter_nil_iff. split.
-  - intros [H1 H2] o Ho. specialize (H1 o Ho). specialize (H2 o Ho).
-    unfold visible_table, view_or_trigger, hidden_or_index in *.
-    destruct (o_kind o); simpl in *; try discriminate; auto.
-    left. split; [reflexivity|]. destruct (hidden_name (o_name o)); [reflexivity|discriminate].
-  - intros H. split; intros o Ho; specialize (H o Ho);
-      unfold visible_table, view_or_trigger, hidden_or_index in *;
-      destruct H as [[Hk Hh]|Hk]; rewrite Hk; simpl; try reflexivity.
-    rewrite Hh. reflexivity.
+  rewrite code_clean_split. intros [_ H]. unfold other_objects in H.
+  rewrite filter_nil_iff in H. unfold prop_clean. apply forallb_forall.
+  intros o Ho. specialize (H o Ho). destruct (bookkeeping o); [reflexivity|discriminate].
 Qed.
 
-Lemma clean_coincide d :
-  wf_db d -> no_hidden d -> code_clean d = prop_clean d.
+Lemma not_prop_clean_refused d : prop_clean d = false -> code_clean d = false.
 Proof.
-  intros Hwf Hnh. destruct d as [|o d]; [reflexivity|]. simpl prop_clean.
-  destruct (code_clean (o :: d)) eqn:E; [|reflexivity]. exfalso.
-  pose proof (proj1 (code_clean_char (o :: d)) E) as Hc.
-  assert (Hin : In o (o :: d)) by (left; reflexivity).
-  destruct (Hc o Hin) as [[Hk Hh]|Hk].
-  - rewrite (Hnh o Hin Hk) in Hh. discriminate.
-  - destruct (Hwf o Hin Hk) as [t [Ht [Htk _]]].
-    destruct (Hc t Ht) as [[_ Hh]|Hk'].
-    + rewrite (Hnh t Ht Htk) in Hh. discriminate.
-    + congruence.
+  intros H. destruct (code_clean d) eqn:E; [|reflexivity].
+  rewrite (code_clean_sound d E) in H. discriminate.
 Qed.
 
-Lemma nonempty_not_clean d :
-  wf_db d -> no_hidden d -> d <> [] -> code_clean d = false.
+Lemma prop_clean_false_iff d :
+  prop_clean d = false <-> exists o, In o d /\ bookkeeping o = false.
 Proof.
-  intros Hwf Hnh Hne. rewrite (clean_coincide d Hwf Hnh).
-  destruct d; [congruence|reflexivity].
+  unfold prop_clean. split.
+  - intros H. induction d as [|a d IH]; simpl in H; [discriminate|].
+    destruct (bookkeeping a) eqn:E.
+    + destruct (IH H) as [o [Ho Hb]]. exists o. split; [right; exact Ho|exact Hb].
+    + exists a. split; [left; reflexivity|exact E].
+  - intros [o [Ho Hb]]. destruct (forallb bookkeeping d) eqn:E; [|reflexivity].
+    rewrite forallb_forall in E. rewrite (E o Ho) in Hb. discriminate.
+Qed.
+
+(** every reserved name is one the inspection hides *)
+Lemma strip_prefix_ci_snoc p x s r :
+  strip_prefix_ci (p ++ [x]) s = Some r -> exists c, strip_prefix_ci p s = Some (c :: r).
+Proof.
+  revert s. induction p as [|y p IH]; intros s; simpl.
+  - destruct s as [|c s]; [discriminate|].
+    destruct (N.eqb (lower x) (lower c)); [|discriminate].
+    intros E. inversion E. exists c. reflexivity.
+  - destruct s as [|c s]; [discriminate|].
+    destruct (N.eqb (lower y) (lower c)); [|discriminate]. apply IH.
+Qed.
+
+Lemma reserved_hidden n : reserved_tbl n = true -> hidden_name n = true.
+Proof.
+  unfold reserved_tbl, hidden_name. intros H. apply orb_true_iff in H. destruct H as [H|H].
+  - apply orb_true_iff. left. unfold prefix_ci in H. unfold like6.
+    destruct (strip_prefix_ci b_sqlite_ n) as [r|] eqn:E; [|discriminate].
+    change b_sqlite_ with (b_sqlite ++ [95%N]) in E.
+    destruct (strip_prefix_ci_snoc _ _ _ _ E) as [c Hc]. rewrite Hc. reflexivity.
+  - apply bytes_eqb_eq in H. subst n. vm_compute. reflexivity.
+Qed.
+
+(** ... so Snapshot does not refuse a database that holds nothing but bookkeeping *)
+Lemma code_clean_complete d : wf_db d -> prop_clean d = true -> code_clean d = true.
+Proof.
+  intros Hwf H. unfold prop_clean in H. rewrite forallb_forall in H.
+  apply code_clean_split. split.
+  - unfold inspect_tables. apply filter_nil_iff. intros o Ho. unfold visible_table.
+    destruct (kind_eqb (o_kind o) KTable) eqn:Ek; [|reflexivity]. simpl.
+    assert (Hk : o_kind o = KTable) by (destruct (o_kind o); try discriminate; reflexivity).
+    specialize (H o Ho). unfold bookkeeping in H. rewrite (Hwf o Ho Hk) in H.
+    rewrite (reserved_hidden _ H). reflexivity.
+  - unfold other_objects. apply filter_nil_iff. intros o Ho. rewrite (H o Ho). reflexivity.
+Qed.
+
+Lemma clean_coincide d : wf_db d -> code_clean d = prop_clean d.
+Proof.
+  intros Hwf. destruct (prop_clean d) eqn:E.
+  - exact (code_clean_complete d Hwf E).
+  - exact (not_prop_clean_refused d E).
 Qed.
 
 (** ** refusal: nothing happens *)
-Lemma run_session_refused b fs d :
-  code_clean d = false -> run_session b fs d = (ORefused, d, fs, []).
+Lemma run_session_refused s fs rs d :
+  code_clean d = false -> run_session s fs rs d = (ORefused, d, fs, rs, []).
 Proof. intros H. unfold run_session. rewrite H. reflexivity. Qed.
 
-Lemma run_sessions_refused ss fs d :
+Lemma run_sessions_refused ss fs rs d :
   code_clean d = false ->
-  run_sessions ss fs d = (match ss with [] => OOk | _ => ORefused end, d, fs, []).
+  run_sessions ss fs rs d = (match ss with [] => OOk | _ => ORefused end, d, fs, rs, []).
 Proof.
   intros H. destruct ss as [|b ss]; simpl; [reflexivity|].
-  rewrite (run_session_refused b fs d H). reflexivity.
+  rewrite (run_session_refused b fs rs d H). reflexivity.
 Qed.
 
-(** ** an accepted session hands the database back empty and its last event is the restore *)
-Lemma run_session_accepted b fs d :
+(** ** an accepted session ends with the restore; the database is empty if its DELETE ran *)
+Lemma run_session_accepted s fs rs d :
   code_clean d = true ->
-  exists o fs' es, run_session b fs d = (o, [], fs', es ++ [ERestore]) /\ o <> ORefused.
+  exists o d' fs' rs' es k,
+    run_session s fs rs d = (o, d', fs', rs', es ++ [ERestore k]) /\
+    (2 <= k -> d' = []) /\ o <> ORefused.
 Proof.
   intros H. unfold run_session. rewrite H.
-  destruct (run_body b fs d) as [[[r d'] fs'] es] eqn:E.
-  rewrite restore_nil. exists (match r with None => OOk | Some m => OFail m end), fs', es.
-  split; [reflexivity|]. destruct r; discriminate.
+  destruct (run_body (s_body s) fs rs d) as [[[[r d1] fs1] rs1] es] eqn:E.
+  destruct (run_restore rs1 d1) as [[k d2] rs2] eqn:Er.
+  destruct (run_restore_spec _ _ _ _ _ Er) as [_ Hs].
+  eexists _, d2, fs1, rs2, es, k. split; [reflexivity|]. split.
+  - intros Hk. destruct Hs as [[Hlt _]|[_ Hd]]; [lia|exact Hd].
+  - destruct r; try discriminate. destruct (restore_done k || negb (s_reports s)); discriminate.
 Qed.
 
-Lemma run_sessions_clean ss fs d :
+Lemma run_sessions_clean ss : forall fs rs d,
   code_clean d = true -> ss <> [] ->
-  exists o fs' es, run_sessions ss fs d = (o, [], fs', es ++ [ERestore]) /\ o <> ORefused.
+  exists o d' fs' rs' es k,
+    run_sessions ss fs rs d = (o, d', fs', rs', es ++ [ERestore k]) /\
+    (2 <= k -> d' = []) /\ (o = ORefused -> k < 2).
 Proof.
-  revert fs d. induction ss as [|b ss IH]; intros fs d Hc Hne; [congruence|].
-  simpl. destruct (run_session_accepted b fs d Hc) as [o [fs1 [es1 [E Ho]]]].
-  rewrite E. destruct o as [| |m].
+  induction ss as [|b ss IH]; intros fs rs d Hc Hne; [congruence|].
+  simpl. destruct (run_session_accepted b fs rs d Hc) as [o [d1 [fs1 [rs1 [es1 [k1 [E [Hk Ho]]]]]]]].
+  rewrite E. destruct o as [| |m|]; try congruence.
   - destruct ss as [|b2 ss2].
-    + simpl. exists OOk, fs1, es1. rewrite app_nil_r. split; [reflexivity|discriminate].
-    + destruct (IH fs1 [] code_clean_nil ltac:(discriminate)) as [o2 [fs2 [es2 [E2 Ho2]]]].
-      rewrite E2. exists o2, fs2, ((es1 ++ [ERestore]) ++ es2).
-      rewrite <- app_assoc. rewrite <- app_assoc. split; [|exact Ho2].
-      rewrite <- !app_assoc. reflexivity.
-  - congruence.
-  - exists (OFail m), fs1, es1. split; [reflexivity|discriminate].
+    + simpl. exists OOk, d1, fs1, rs1, es1, k1. rewrite app_nil_r.
+      split; [reflexivity|]. split; [exact Hk|discriminate].
+    + destruct (code_clean d1) eqn:Hc1.
+      * destruct (IH fs1 rs1 d1 Hc1 ltac:(discriminate)) as [o2 [d2 [fs2 [rs2 [es2 [k2 [E2 [Hk2 Ho2]]]]]]]].
+        rewrite E2. exists o2, d2, fs2, rs2, ((es1 ++ [ERestore k1]) ++ es2), k2.
+        rewrite <- !app_assoc. split; [reflexivity|]. split; assumption.
+      * rewrite (run_sessions_refused (b2 :: ss2) fs1 rs1 d1 Hc1).
+        exists ORefused, d1, fs1, rs1, es1, k1. rewrite app_nil_r.
+        split; [reflexivity|]. split; [exact Hk|]. intros _.
+        destruct (Nat.lt_ge_cases k1 2) as [Hlt|Hge]; [exact Hlt|].
+        rewrite (Hk Hge) in Hc1. discriminate.
+  - exists (OFail m), d1, fs1, rs1, es1, k1. split; [reflexivity|]. split; [exact Hk|discriminate].
+  - exists ORestoreFail, d1, fs1, rs1, es1, k1. split; [reflexivity|]. split; [exact Hk|discriminate].
 Qed.
 
-Lemma run_sessions_from_empty ss fs :
-  forall o d' fs' es, run_sessions ss fs [] = (o, d', fs', es) -> d' = [].
+(** ** no fault in a restore statement ([rs = []]): every session hands back the empty database *)
+Lemma run_body_rs_nil b : forall fs d r d' fs' rs' es,
+  run_body b fs [] d = (r, d', fs', rs', es) -> rs' = [] /\ r <> BRestoreFail.
 Proof.
-  intros o d' fs' es E. destruct ss as [|b ss].
-  - simpl in E. inversion E. reflexivity.
-  - destruct (run_sessions_clean (b :: ss) fs [] code_clean_nil ltac:(discriminate))
-      as [o2 [fs2 [es2 [E2 _]]]].
-    rewrite E2 in E. inversion E. reflexivity.
+  induction b as [|o b IH]; intros fs d r d' fs' rs' es E; simpl in E.
+  - inversion E. split; [reflexivity|discriminate].
+  - destruct o as [m s|].
+    + destruct (pop fs) as [fail fs1]. destruct fail.
+      * inversion E. split; [reflexivity|discriminate].
+      * destruct (exec_stmt s d) as [d1|].
+        -- destruct (run_body b fs1 [] d1) as [[[[r2 d2] fs2] rs2] es2] eqn:E2.
+           inversion E; subst. exact (IH _ _ _ _ _ _ _ E2).
+        -- inversion E. split; [reflexivity|discriminate].
+    + rewrite run_restore_nofault in E. simpl in E.
+      destruct (run_body b fs [] []) as [[[[r2 d2] fs2] rs2] es2] eqn:E2.
+      inversion E; subst. exact (IH _ _ _ _ _ _ _ E2).
+Qed.
+
+Lemma run_session_nofault s fs d :
+  code_clean d = true ->
+  exists o fs' es, run_session s fs [] d = (o, [], fs', [], es ++ [ERestore 4]) /\
+                   o <> ORefused /\ o <> ORestoreFail.
+Proof.
+  intros H. unfold run_session. rewrite H.
+  destruct (run_body (s_body s) fs [] d) as [[[[r d1] fs1] rs1] es] eqn:E.
+  destruct (run_body_rs_nil _ _ _ _ _ _ _ _ E) as [-> Hr].
+  rewrite run_restore_nofault. eexists _, fs1, es. split; [reflexivity|].
+  destruct r; simpl; try congruence; split; discriminate.
+Qed.
+
+Lemma run_sessions_nofault ss : forall fs d,
+  code_clean d = true -> ss <> [] ->
+  exists o fs' es, run_sessions ss fs [] d = (o, [], fs', [], es ++ [ERestore 4]) /\
+                   o <> ORefused /\ o <> ORestoreFail.
+Proof.
+  induction ss as [|b ss IH]; intros fs d Hc Hne; [congruence|].
+  simpl. destruct (run_session_nofault b fs d Hc) as [o [fs1 [es1 [E [Ho1 Ho2]]]]].
+  rewrite E. destruct o as [| |m|]; try congruence.
+  - destruct ss as [|b2 ss2].
+    + simpl. exists OOk, fs1, es1. rewrite app_nil_r. split; [reflexivity|]. split; discriminate.
+    + destruct (IH fs1 [] code_clean_nil ltac:(discriminate)) as [o2 [fs2 [es2 [E2 Ho]]]].
+      rewrite E2. exists o2, fs2, ((es1 ++ [ERestore 4]) ++ es2).
+      rewrite <- !app_assoc. split; [reflexivity|exact Ho].
+  - exists (OFail m), fs1, es1. split; [reflexivity|]. split; discriminate.
+Qed.
+
+Lemma run_sessions_handed_back ss fs d o d' fs' rs' es :
+  code_clean d = true -> ss <> [] ->
+  run_sessions ss fs [] d = (o, d', fs', rs', es) -> d' = [].
+Proof.
+  intros Hc Hne E.
+  destruct (run_sessions_nofault ss fs d Hc Hne) as [o2 [fs2 [es2 [E2 _]]]].
+  rewrite E2 in E. inversion E. reflexivity.
+Qed.
+
+Lemma run_sessions_from_empty ss fs o d' fs' rs' es :
+  run_sessions ss fs [] [] = (o, d', fs', rs', es) -> d' = [].
+Proof.
+  destruct ss as [|b ss].
+  - simpl. intros E. inversion E. reflexivity.
+  - apply run_sessions_handed_back; [reflexivity|discriminate].
+Qed.
+
+(** ** the database changes only by a successful write or a restore that reached its DELETE *)
+Lemma existsb_app_false {A} (f : A -> bool) l1 l2 :
+  existsb f (l1 ++ l2) = false -> existsb f l1 = false /\ existsb f l2 = false.
+Proof. rewrite existsb_app. intros H. apply orb_false_iff in H. exact H. Qed.
+
+Lemma run_restore_untouched rs d k d' rs' :
+  run_restore rs d = (k, d', rs') -> touching (ERestore k) = false -> d' = d.
+Proof.
+  intros E H. destruct (run_restore_spec _ _ _ _ _ E) as [_ [[_ Hd]|[Hk _]]]; [exact Hd|].
+  unfold touching in H. apply Nat.leb_gt in H. lia.
+Qed.
+
+Lemma run_body_untouched b : forall fs rs d r d' fs' rs' es,
+  run_body b fs rs d = (r, d', fs', rs', es) -> existsb touching es = false -> d' = d.
+Proof.
+  induction b as [|o b IH]; intros fs rs d r d' fs' rs' es E H; simpl in E.
+  - inversion E. reflexivity.
+  - destruct o as [m s|].
+    + destruct (pop fs) as [fail fs1]. destruct fail.
+      * inversion E. reflexivity.
+      * destruct (exec_stmt s d) as [d1|].
+        -- destruct (run_body b fs1 rs d1) as [[[[r2 d2] fs2] rs2] es2] eqn:E2.
+           inversion E; subst. simpl in H. discriminate.
+        -- inversion E. reflexivity.
+    + destruct (run_restore rs d) as [[k d1] rs1] eqn:Er.
+      destruct (restore_done k) eqn:Hd.
+      * destruct (run_body b fs rs1 d1) as [[[[r2 d2] fs2] rs2] es2] eqn:E2.
+        inversion E; subst. simpl in H. apply orb_false_iff in H. destruct H as [H1 H2].
+        rewrite (IH _ _ _ _ _ _ _ _ E2 H2). exact (run_restore_untouched _ _ _ _ _ Er H1).
+      * inversion E; subst. simpl in H. apply orb_false_iff in H. destruct H as [H1 _].
+        exact (run_restore_untouched _ _ _ _ _ Er H1).
+Qed.
+
+Lemma run_session_untouched s fs rs d o d' fs' rs' es :
+  run_session s fs rs d = (o, d', fs', rs', es) -> existsb touching es = false -> d' = d.
+Proof.
+  unfold run_session. destruct (code_clean d).
+  - destruct (run_body (s_body s) fs rs d) as [[[[r d1] fs1] rs1] es1] eqn:E1.
+    destruct (run_restore rs1 d1) as [[k d2] rs2] eqn:Er.
+    intros E H. inversion E; subst.
+    destruct (existsb_app_false _ _ _ H) as [H1 H2]. simpl in H2. apply orb_false_iff in H2.
+    destruct H2 as [H2 _].
+    rewrite (run_restore_untouched _ _ _ _ _ Er H2). exact (run_body_untouched _ _ _ _ _ _ _ _ _ E1 H1).
+  - intros E _. inversion E. reflexivity.
+Qed.
+
+Lemma run_sessions_untouched ss : forall fs rs d o d' fs' rs' es,
+  run_sessions ss fs rs d = (o, d', fs', rs', es) -> existsb touching es = false -> d' = d.
+Proof.
+  induction ss as [|b ss IH]; intros fs rs d o d' fs' rs' es E H; simpl in E.
+  - inversion E. reflexivity.
+  - destruct (run_session b fs rs d) as [[[[o1 d1] fs1] rs1] es1] eqn:E1.
+    destruct o1.
+    + destruct (run_sessions ss fs1 rs1 d1) as [[[[o2 d2] fs2] rs2] es2] eqn:E2.
+      inversion E; subst. destruct (existsb_app_false _ _ _ H) as [H1 H2].
+      rewrite (IH _ _ _ _ _ _ _ _ E2 H2). exact (run_session_untouched _ _ _ _ _ _ _ _ _ E1 H1).
+    + inversion E; subst. exact (run_session_untouched _ _ _ _ _ _ _ _ _ E1 H).
+    + inversion E; subst. exact (run_session_untouched _ _ _ _ _ _ _ _ _ E1 H).
+    + inversion E; subst. exact (run_session_untouched _ _ _ _ _ _ _ _ _ E1 H).
 Qed.
 
 (** ** sessions never write the directory *)
-Lemma run_body_no_dirwrite b : forall fs d r d' fs' es,
-  run_body b fs d = (r, d', fs', es) -> ~ In EDirWrite es.
+Lemma run_body_no_dirwrite b : forall fs rs d r d' fs' rs' es,
+  run_body b fs rs d = (r, d', fs', rs', es) -> ~ In EDirWrite es.
 Proof.
-  induction b as [|o b IH]; intros fs d r d' fs' es E; simpl in E.
+  induction b as [|o b IH]; intros fs rs d r d' fs' rs' es E; simpl in E.
   - inversion E. intros [].
   - destruct o as [m s|].
     + destruct (pop fs) as [fail fs1]. destruct fail.
       * inversion E. simpl. intros [H|[]]. discriminate.
       * destruct (exec_stmt s d) as [d1|].
-        -- destruct (run_body b fs1 d1) as [[[r2 d2] fs2] es2] eqn:E2.
+        -- destruct (run_body b fs1 rs d1) as [[[[r2 d2] fs2] rs2] es2] eqn:E2.
            inversion E; subst. simpl. intros [H|H]; [discriminate|].
-           exact (IH _ _ _ _ _ _ E2 H).
+           exact (IH _ _ _ _ _ _ _ _ E2 H).
         -- inversion E. simpl. intros [H|[]]. discriminate.
-    + destruct (run_body b fs (restore d)) as [[[r2 d2] fs2] es2] eqn:E2.
-      inversion E; subst. simpl. intros [H|H]; [discriminate|].
-      exact (IH _ _ _ _ _ _ E2 H).
+    + destruct (run_restore rs d) as [[k d1] rs1]. destruct (restore_done k).
+      * destruct (run_body b fs rs1 d1) as [[[[r2 d2] fs2] rs2] es2] eqn:E2.
+        inversion E; subst. simpl. intros [H|H]; [discriminate|].
+        exact (IH _ _ _ _ _ _ _ _ E2 H).
+      * inversion E; subst. simpl. intros [H|[]]. discriminate.
 Qed.
 
-Lemma run_session_no_dirwrite b fs d o d' fs' es :
-  run_session b fs d = (o, d', fs', es) -> ~ In EDirWrite es.
+Lemma run_session_no_dirwrite s fs rs d o d' fs' rs' es :
+  run_session s fs rs d = (o, d', fs', rs', es) -> ~ In EDirWrite es.
 Proof.
   unfold run_session. destruct (code_clean d).
-  - destruct (run_body b fs d) as [[[r d2] fs2] es2] eqn:E2. intros E. inversion E; subst.
+  - destruct (run_body (s_body s) fs rs d) as [[[[r d2] fs2] rs2] es2] eqn:E2.
+    destruct (run_restore rs2 d2) as [[k d3] rs3].
+    intros E. inversion E; subst.
     intros H. apply in_app_or in H. destruct H as [H|[H|[]]].
-    + exact (run_body_no_dirwrite _ _ _ _ _ _ _ E2 H).
+    + exact (run_body_no_dirwrite _ _ _ _ _ _ _ _ _ E2 H).
     + discriminate.
   - intros E. inversion E. intros [].
 Qed.
 
-Lemma run_sessions_no_dirwrite ss : forall fs d o d' fs' es,
-  run_sessions ss fs d = (o, d', fs', es) -> ~ In EDirWrite es.
+Lemma run_sessions_no_dirwrite ss : forall fs rs d o d' fs' rs' es,
+  run_sessions ss fs rs d = (o, d', fs', rs', es) -> ~ In EDirWrite es.
 Proof.
-  induction ss as [|b ss IH]; intros fs d o d' fs' es E; simpl in E.
+  induction ss as [|b ss IH]; intros fs rs d o d' fs' rs' es E; simpl in E.
   - inversion E. intros [].
-  - destruct (run_session b fs d) as [[[o1 d1] fs1] es1] eqn:E1.
-    pose proof (run_session_no_dirwrite _ _ _ _ _ _ _ E1) as H1.
+  - destruct (run_session b fs rs d) as [[[[o1 d1] fs1] rs1] es1] eqn:E1.
+    pose proof (run_session_no_dirwrite _ _ _ _ _ _ _ _ _ E1) as H1.
     destruct o1.
-    + destruct (run_sessions ss fs1 d1) as [[[o2 d2] fs2] es2] eqn:E2.
+    + destruct (run_sessions ss fs1 rs1 d1) as [[[[o2 d2] fs2] rs2] es2] eqn:E2.
       inversion E; subst. intros H. apply in_app_or in H. destruct H as [H|H]; [exact (H1 H)|].
-      exact (IH _ _ _ _ _ _ E2 H).
+      exact (IH _ _ _ _ _ _ _ _ E2 H).
+    + inversion E; subst. exact H1.
     + inversion E; subst. exact H1.
     + inversion E; subst. exact H1.
 Qed.
 
 (** ** the commands *)
-Lemma sessions_of_nonempty_sql norm c dir from to :
-  (* every command replays something unless its only sources are HCL files *)
+Definition replays (s : source) : Prop :=
+  (exists ss, s = SrcSQL ss) \/ (exists dd, s = SrcDir dd).
+Definition normalizes (norm : normalizer) (s : source) : Prop :=
+  norm <> NoNorm /\ exists ts, s = SrcHCL ts.
+
+Lemma eager_nonempty s : replays s -> eager s <> [].
+Proof. intros [[ss ->]|[dd ->]]; discriminate. Qed.
+
+Lemma deferred_nonempty norm s : normalizes norm s -> deferred norm s <> [].
+Proof. intros [Hn [ts ->]]. destruct norm; simpl; try discriminate. congruence. Qed.
+
+Lemma app_nonempty_l {A} (l1 l2 : list A) : l1 <> [] -> l1 ++ l2 <> [].
+Proof. destruct l1; [congruence|discriminate]. Qed.
+Lemma app_nonempty_r {A} (l1 l2 : list A) : l2 <> [] -> l1 ++ l2 <> [].
+Proof. destruct l1; [auto|discriminate]. Qed.
+
+Lemma sessions_of_nonempty norm c dir from to :
+  (* every command opens a session unless none of its sources needs the dev database *)
   match c with
-  | CValidate | CLint _ | CDiff => True
-  | CSchemaDiff => (exists ss, from = SrcSQL ss) \/ (exists dd, from = SrcDir dd) \/
-                   (exists ss, to = SrcSQL ss) \/ (exists dd, to = SrcDir dd) \/
-                   (norm = true /\ ((exists ts, from = SrcHCL ts) \/ (exists ts, to = SrcHCL ts)))
-  | CSchemaApply => (exists ss, to = SrcSQL ss) \/ (exists dd, to = SrcDir dd) \/
-                    (norm = true /\ exists ts, to = SrcHCL ts)
+  | CValidate | CLint _ | CDiff | CCheckpoint => True
+  | CSchemaDiff => replays from \/ replays to \/ normalizes norm from \/ normalizes norm to
+  | CSchemaApply => replays to \/ normalizes norm to
+  | CSchemaInspect => replays from \/ normalizes norm from
   end -> sessions_of norm c dir from to <> [].
 Proof.
   destruct c; simpl; intros H; try discriminate.
-  - destruct (eager to); discriminate.
-  - destruct from, to, norm; simpl; try discriminate; exfalso;
-      repeat match goal with
-             | H : _ \/ _ |- _ => destruct H
-             | H : _ /\ _ |- _ => destruct H
-             | H : exists _, _ |- _ => destruct H
-             end; discriminate.
-  - destruct to, norm; simpl; try discriminate; exfalso;
-      repeat match goal with
-             | H : _ \/ _ |- _ => destruct H
-             | H : _ /\ _ |- _ => destruct H
-             | H : exists _, _ |- _ => destruct H
-             end; discriminate.
+  - apply app_nonempty_r. discriminate.
+  - destruct H as [H|[H|[H|H]]].
+    + apply app_nonempty_l. exact (eager_nonempty _ H).
+    + apply app_nonempty_r, app_nonempty_l. exact (eager_nonempty _ H).
+    + apply app_nonempty_r, app_nonempty_r, app_nonempty_l. exact (deferred_nonempty _ _ H).
+    + apply app_nonempty_r, app_nonempty_r, app_nonempty_r. exact (deferred_nonempty _ _ H).
+  - destruct H as [H|H].
+    + apply app_nonempty_l. exact (eager_nonempty _ H).
+    + apply app_nonempty_r. exact (deferred_nonempty _ _ H).
+  - destruct H as [H|H].
+    + apply app_nonempty_l. exact (eager_nonempty _ H).
+    + apply app_nonempty_r. exact (deferred_nonempty _ _ H).
 Qed.
 
-Lemma run_cmd_refused norm c dir from to changes fs d :
+Lemma run_cmd_refused norm c dir from to changes fs rs d :
   code_clean d = false ->
-  run_cmd norm c dir from to changes fs d =
-    (match sessions_of norm c dir from to with [] => OOk | _ => ORefused end, d,
-     match sessions_of norm c dir from to with
-     | [] => if is_diff c && changes then [EDirWrite] else []
-     | _ => []
-     end).
+  sessions_of norm c dir from to <> [] ->
+  run_cmd norm c dir from to changes fs rs d = (ORefused, d, []).
 Proof.
-  intros H. unfold run_cmd. rewrite (run_sessions_refused _ fs d H).
-  destruct (sessions_of norm c dir from to); simpl.
-  - rewrite andb_true_r. reflexivity.
-  - rewrite andb_false_r. reflexivity.
+  intros H Hne. unfold run_cmd. rewrite (run_sessions_refused _ fs rs d H).
+  destruct (sessions_of norm c dir from to); [congruence|].
+  simpl. rewrite andb_false_r. reflexivity.
+Qed.
+
+Lemma run_cmd_handed_back norm c dir from to changes fs d o d' es :
+  code_clean d = true ->
+  sessions_of norm c dir from to <> [] ->
+  run_cmd norm c dir from to changes fs [] d = (o, d', es) -> d' = [].
+Proof.
+  unfold run_cmd. intros Hc Hne.
+  destruct (run_sessions (sessions_of norm c dir from to) fs [] d) as [[[[o1 d1] fs1] rs1] es1] eqn:E.
+  intros H. inversion H; subst. exact (run_sessions_handed_back _ _ _ _ _ _ _ _ Hc Hne E).
 Qed.
 
 Lemma run_cmd_from_empty norm c dir from to changes fs o d' es :
-  run_cmd norm c dir from to changes fs [] = (o, d', es) -> d' = [].
+  run_cmd norm c dir from to changes fs [] [] = (o, d', es) -> d' = [].
 Proof.
   unfold run_cmd.
-  destruct (run_sessions (sessions_of norm c dir from to) fs []) as [[[o1 d1] fs1] es1] eqn:E.
-  intros H. inversion H; subst. exact (run_sessions_from_empty _ _ _ _ _ _ E).
+  destruct (run_sessions (sessions_of norm c dir from to) fs [] []) as [[[[o1 d1] fs1] rs1] es1] eqn:E.
+  intros H. inversion H; subst. exact (run_sessions_from_empty _ _ _ _ _ _ _ E).
 Qed.
 
-Lemma run_cmd_dirwrite norm c dir from to changes fs d o d' es :
-  run_cmd norm c dir from to changes fs d = (o, d', es) ->
-  (exists es0, ~ In EDirWrite es0 /\
-     ((es = es0 /\ (c <> CDiff \/ o <> OOk \/ changes = false)) \/
-      (es = es0 ++ [EDirWrite] /\ c = CDiff /\ o = OOk /\ changes = true))).
+Lemma run_cmd_restore_last norm c dir from to changes fs rs d :
+  code_clean d = true ->
+  sessions_of norm c dir from to <> [] ->
+  exists o d' es k tail,
+    run_cmd norm c dir from to changes fs rs d = (o, d', es ++ [ERestore k] ++ tail) /\
+    (2 <= k -> d' = []) /\ (o = ORefused -> k < 2) /\ (tail = [] \/ tail = [EDirWrite]).
+Proof.
+  intros Hc Hne. unfold run_cmd.
+  destruct (run_sessions_clean _ fs rs d Hc Hne) as [o [d' [fs' [rs' [es [k [E [Hk Ho]]]]]]]].
+  rewrite E. eexists o, d', es, k, _. rewrite <- app_assoc. split; [reflexivity|].
+  split; [exact Hk|]. split; [exact Ho|].
+  destruct (writes_dir c && is_ok o && changes); [right|left]; reflexivity.
+Qed.
+
+Lemma run_cmd_untouched norm c dir from to changes fs rs d o d' es :
+  run_cmd norm c dir from to changes fs rs d = (o, d', es) ->
+  existsb touching es = false -> d' = d.
 Proof.
   unfold run_cmd.
-  destruct (run_sessions (sessions_of norm c dir from to) fs d) as [[[o1 d1] fs1] es1] eqn:E.
+  destruct (run_sessions (sessions_of norm c dir from to) fs rs d) as [[[[o1 d1] fs1] rs1] es1] eqn:E.
+  intros H Ht. inversion H; subst. destruct (existsb_app_false _ _ _ Ht) as [H1 _].
+  exact (run_sessions_untouched _ _ _ _ _ _ _ _ _ E H1).
+Qed.
+
+Lemma run_cmd_dirwrite norm c dir from to changes fs rs d o d' es :
+  run_cmd norm c dir from to changes fs rs d = (o, d', es) ->
+  (exists es0, ~ In EDirWrite es0 /\
+     ((es = es0 /\ (writes_dir c = false \/ o <> OOk \/ changes = false)) \/
+      (es = es0 ++ [EDirWrite] /\ writes_dir c = true /\ o = OOk /\ changes = true))).
+Proof.
+  unfold run_cmd.
+  destruct (run_sessions (sessions_of norm c dir from to) fs rs d) as [[[[o1 d1] fs1] rs1] es1] eqn:E.
   intros H. inversion H; subst. exists es1.
-  split; [exact (run_sessions_no_dirwrite _ _ _ _ _ _ _ E)|].
-  destruct c; simpl; try (left; split; [apply app_nil_r|left; discriminate]).
+  split; [exact (run_sessions_no_dirwrite _ _ _ _ _ _ _ _ _ E)|].
+  destruct (writes_dir c) eqn:Hw; simpl; [|left; split; [apply app_nil_r|left; reflexivity]].
   destruct o; simpl; try (left; split; [apply app_nil_r|right; left; discriminate]).
   destruct changes; simpl.
   - right. repeat split; reflexivity.
   - left. split; [apply app_nil_r|right; right; reflexivity].
+Qed.
+
+Lemma run_cmd_dir_readonly norm c dir from to changes fs rs d o d' es :
+  run_cmd norm c dir from to changes fs rs d = (o, d', es) ->
+  (writes_dir c = false \/ o <> OOk \/ changes = false) -> ~ In EDirWrite es.
+Proof.
+  intros E Hc. destruct (run_cmd_dirwrite _ _ _ _ _ _ _ _ _ _ _ _ E) as [es0 [H0 [[-> _]|[_ [Hw [Ho Hch]]]]]].
+  - exact H0.
+  - destruct Hc as [Hc|[Hc|Hc]]; congruence.
 Qed.
